@@ -226,6 +226,7 @@ type ArmViolation struct {
 	Want    string
 	Path    string
 	Context string
+	Indexed bool // the wrong payload is indexed (p.F[i]): a run-time panic when it is empty
 }
 
 type ArmStats struct{ Regions, Accesses int }
@@ -261,6 +262,15 @@ func ArmViolations(p *core.Program, fn *core.FuncRef, unions []*Union) ([]ArmVio
 		}
 		stats.Regions++
 		for _, st := range nodes {
+			indexed := map[*ast.SelectorExpr]bool{}
+			ast.Inspect(st, func(n ast.Node) bool {
+				if ix, ok := n.(*ast.IndexExpr); ok {
+					if sel, ok := core.Unparen(ix.X).(*ast.SelectorExpr); ok {
+						indexed[sel] = true
+					}
+				}
+				return true
+			})
 			ast.Inspect(st, func(n ast.Node) bool {
 				// a nested switch/if on the same discriminant re-establishes its own region
 				if sw, ok := n.(*ast.SwitchStmt); ok && sw.Tag != nil && core.ExprStr(sw.Tag) == path+"."+u.Discr {
@@ -281,7 +291,7 @@ func ArmViolations(p *core.Program, fn *core.FuncRef, unions []*Union) ([]ArmVio
 						want = append(want, f)
 					}
 					sort.Strings(want)
-					out = append(out, ArmViolation{Pos: sel.Pos(), Const: strings.Join(consts, ","), Field: sel.Sel.Name, Want: strings.Join(want, "|"), Path: path, Context: ctx})
+					out = append(out, ArmViolation{Pos: sel.Pos(), Const: strings.Join(consts, ","), Field: sel.Sel.Name, Want: strings.Join(want, "|"), Path: path, Context: ctx, Indexed: indexed[sel]})
 				}
 				return true
 			})
